@@ -12,11 +12,11 @@ package command
 
 import (
 	"fmt"
-	"runtime"
-	"syscall"
 	"net"
+	"runtime"
 	"sort"
 	"strings"
+	"syscall"
 
 	"github.com/v-byte-cpu/sx/zzref"
 	"github.com/v-byte-cpu/sx/zzvenv"
@@ -111,6 +111,10 @@ func c17netns(w c17world) error {
 		if r.src != "" {
 			rt.Src = net.ParseIP(r.src).To4()
 		}
+		if r.dst != "" {
+			_, n, _ := net.ParseCIDR(r.dst)
+			rt.Dst = n
+		}
 		if err := netlink.RouteAdd(&rt); err != nil {
 			return fmt.Errorf("route add default dev %s metric %d: %v", r.ifname, r.metric, err)
 		}
@@ -122,12 +126,13 @@ func c17netns(w c17world) error {
 // so "an IPv6 address listed first" exists in the virtual tables only).
 func c17kernelOK(w c17world) bool {
 	// two default routes with the same metric have the same key in the kernel's table
-	seen := map[int]bool{}
+	seen := map[string]bool{}
 	for _, r := range w.routes {
-		if seen[r.metric] {
+		k := fmt.Sprintf("%s|%d", r.dst, r.metric)
+		if seen[k] {
 			return false
 		}
-		seen[r.metric] = true
+		seen[k] = true
 		if r.src != "" {
 			// a preferred source must be an address of the host
 			has := false
@@ -209,6 +214,7 @@ type c17route struct {
 	ifname string
 	metric int
 	src    string // route carries a preferred source (still a default route)
+	dst    string // "" = default route; else a destination prefix: NOT a default route, whatever its first address is
 }
 
 type c17world struct {
@@ -230,13 +236,13 @@ func c17ifaces() [][]c17if {
 		{eth0("10.0.0.5/24"), eth1("10.0.1.5/24")},
 		{eth1("10.0.1.5/24"), eth0("10.0.0.5/24")},
 		{eth0("10.0.0.5/24"), eth1("10.0.0.77/16")}, // overlapping subnets on two interfaces
-		{eth0("10.0.0.77/16", "10.0.0.5/24")},         // overlapping subnets on one interface
+		{eth0("10.0.0.77/16", "10.0.0.5/24")},       // overlapping subnets on one interface
 		{eth0("192.168.9.9/30"), tun0("10.0.0.5/24")},
 		{tun0("10.8.0.2/24")},
 		{eth0("10.0.0.5/24"), tun0("10.8.0.2/24", "10.0.1.5/24")},
 		{eth0("fe80::1/64", "10.0.0.5/24")}, // an IPv6 address listed first
-		{eth0("fe80::1/64")},                  // no IPv4 address at all
-		{eth0()},                              // no address at all
+		{eth0("fe80::1/64")},                // no IPv4 address at all
+		{eth0()},                            // no address at all
 		{eth0("10.0.0.5/24"), eth1("fe80::2/64", "10.0.1.5/24"), tun0("10.8.0.2/24")},
 	}
 }
@@ -248,17 +254,23 @@ func c17routes(ifs []c17if) [][]c17route {
 	}
 	all := [][]c17route{
 		{},
-		{{"eth0", 100, ""}},
-		{{"eth1", 100, ""}},
-		{{"eth0", 100, ""}, {"eth1", 50, ""}},
-		{{"eth1", 50, ""}, {"eth0", 100, ""}},
-		{{"eth0", 600, ""}, {"eth1", 100, ""}},
-		{{"eth0", 100, ""}, {"eth1", 100, ""}}, // equal metrics: either
-		{{"tun0", 50, ""}},
-		{{"eth0", 100, ""}, {"tun0", 50, ""}},
-		{{"eth0", 0, ""}},
-		{{"eth0", 100, "10.0.0.5"}},                      // a default route that carries a preferred source (as DHCP clients install it)
-		{{"eth1", 600, ""}, {"eth0", 100, "10.0.0.5"}}, // ... next to a worse plain one
+		{{"eth0", 100, "", ""}},
+		{{"eth1", 100, "", ""}},
+		{{"eth0", 100, "", ""}, {"eth1", 50, "", ""}},
+		{{"eth1", 50, "", ""}, {"eth0", 100, "", ""}},
+		{{"eth0", 600, "", ""}, {"eth1", 100, "", ""}},
+		{{"eth0", 100, "", ""}, {"eth1", 100, "", ""}}, // equal metrics: either
+		{{"tun0", 50, "", ""}},
+		{{"eth0", 100, "", ""}, {"tun0", 50, "", ""}},
+		{{"eth0", 0, "", ""}},
+		{{"eth0", 100, "10.0.0.5", ""}},                        // a default route that carries a preferred source (as DHCP clients install it)
+		{{"eth1", 600, "", ""}, {"eth0", 100, "10.0.0.5", ""}}, // ... next to a worse plain one
+		// routes whose destination merely STARTS at 0.0.0.0 are not default routes: the two halves an
+		// OpenVPN "redirect-gateway def1" installs through the tunnel, a 0.0.0.0/8 route - all with a
+		// better metric than the real default route
+		{{"eth0", 100, "", ""}, {"tun0", 0, "", "0.0.0.0/1"}, {"tun0", 0, "", "128.0.0.0/1"}},
+		{{"eth0", 100, "", ""}, {"eth1", 50, "", "0.0.0.0/8"}},
+		{{"tun0", 0, "", "0.0.0.0/1"}, {"tun0", 0, "", "128.0.0.0/1"}}, // and no default route at all
 	}
 	var out [][]c17route
 	for _, rs := range all {
@@ -303,6 +315,10 @@ func (w c17world) apply(zw *zzvenv.World) {
 				rt := netlink.Route{LinkIndex: i.idx, Gw: net.IP{10, 0, 0, 1}, Priority: r.metric}
 				if i.mac == "" {
 					rt.Gw = nil
+				}
+				if r.dst != "" {
+					_, n, _ := net.ParseCIDR(r.dst)
+					rt.Dst = n
 				}
 				if r.src != "" {
 					rt.Src = net.ParseIP(r.src).To4()
@@ -423,12 +439,12 @@ func c17reference(w c17world, target string, f c17flags) (accept []c17answer, ma
 	} else {
 		best := -1
 		for _, r := range w.routes {
-			if best < 0 || r.metric < best {
+			if r.dst == "" && (best < 0 || r.metric < best) {
 				best = r.metric
 			}
 		}
 		for _, r := range w.routes {
-			if r.metric == best {
+			if r.dst == "" && r.metric == best {
 				fb = append(fb, byName[r.ifname])
 			}
 		}
